@@ -114,9 +114,16 @@ Fixpoint run (step : state -> updater -> state * list write) (st : state) (us : 
               let '(st2, w2) := run step st1 r in (st2, w1 ++ w2)
   end.
 
-(* LeveledUpdateBatch: levels top-down with the merge step, then bottom-up with the exact step
-   (inside a level the order is the slice order in both loops) *)
+(* LeveledUpdateBatch: the levels top-down with the merge step (inside a level: slice order), then
+   the levels bottom-up with the exact step, every level BACKWARDS (executor.go as repaired by
+   ce7ebc1); the second list is the flattened batch reversed (Proofs_Leveled.concat_map_rev_rev) *)
 Definition leveled_update (e : env) (st : state) (levels : list (list updater)) : state * list write :=
+  let '(s1, t1) := run (merge_step e) st (concat levels) in
+  let '(s2, t2) := run (exact_step e) s1 (concat (map (@rev updater) (rev levels))) in
+  (s2, t1 ++ t2).
+
+(* the bottom-up pass before ce7ebc1: every level in slice order (regression witness only) *)
+Definition leveled_update_fwd (e : env) (st : state) (levels : list (list updater)) : state * list write :=
   let '(s1, t1) := run (merge_step e) st (concat levels) in
   let '(s2, t2) := run (exact_step e) s1 (concat (rev levels)) in
   (s2, t1 ++ t2).
@@ -161,9 +168,13 @@ Inductive op :=
        first path (the BE root), which is what adjustByCPUSet passes *)
 | ORec (paths : list Z) (new : Z)
     (* one recoverCPUSetForBECPUManager / recoverCPUSetIfNeed call *)
-| OAdj (paths : list Z) (procs milli : Z).
+| OAdj (paths : list Z) (procs milli : Z)
     (* one adjustByCPUSet call: old = the BE root's cpuset, new = [adj_new], then
        applyCPUSetWithNonePolicy *)
+| OCall (levels : list (list updater)).
+    (* one LeveledUpdateBatch call issued by a production caller that is itself modelled
+       (cgroupResourcesReconcile.calculateAndUpdateResources, see Reconcile.v): the arrangement of
+       the updaters into levels and their order are part of the code under test, not an input *)
 
 Definition be_old (fs : fmap) (paths : list Z) (old : option Z) : Z :=
   match old with Some o => o | None => get fs (hd 0 paths) end.
@@ -176,6 +187,7 @@ Definition step_op (e : env) (st : state) (o : op) : state * list write :=
   | ORec paths new => rec_apply e st paths new
   | OAdj paths procs milli =>
       let o := get (sfs st) (hd 0 paths) in be_apply e st paths o (adj_new procs milli o)
+  | OCall ls => leveled_update e st ls
   end.
 
 (* ---------- what the property speaks about ---------- *)
